@@ -149,7 +149,7 @@ type travEvent struct {
 	Sid    int     `json:"sid"`
 	Kind   string  `json:"kind"`
 	N      int     `json:"n"`
-	Direct bool    `json:"direct"` // small enough for the recursive definitions as well
+	Direct bool    `json:"direct"` // judged against the recursive definitions as well (see below)
 	Kids   [][]int `json:"kids"`   // the real tree before the traversals
 	After  [][]int `json:"after"`  // the real tree after them
 	Pre    []int   `json:"pre"`    // ids yielded by PreOrder, in call order
@@ -383,7 +383,14 @@ func traverseDrive(args []string) error {
 		s := travGen(sid, chain)
 		n := len(s.kids)
 		t := travBuildTree(s.kids)
-		ev := travEvent{Sid: sid, Kind: s.kind, N: n, Direct: n <= 10000 && sid < 9000}
+		// the recursive definitions Pre / Post cost the specification O(n * depth) sequence copying:
+		// they are evaluated as well (besides the witness form) where that product is moderate
+		depth, maxDepth := make([]int, n+1), 0
+		for _, v := range s.order {
+			depth[v] = depth[s.parent[v]] + 1
+			maxDepth = max(maxDepth, depth[v])
+		}
+		ev := travEvent{Sid: sid, Kind: s.kind, N: n, Direct: n <= 10000 && n*maxDepth <= 10000000}
 		ev.Kids = t.encode()
 		ev.Pre = t.walk(true)
 		ev.Post = t.walk(false)
